@@ -72,6 +72,10 @@ CLAIMED = {
             "Generated-input search over (abstract configuration, notation subsets A != B, program); plain, -i, --suggest and --llm-define outputs must be identical. Exploration.",
             "Each flip is one equivalence the property lists; union member order is kept.",
             "DESIGN.md §4 C21"),
+    "C10": ("property-based testing (Hypothesis: generated conditionals over union-typed variables, nested up to depth 3) against a set-theoretic reference model of narrowing",
+            "Generated-input search; `dbtp v` at the start and end of every branch and after `end` must equal the model (intersection with the admitted variants, complement for the negated single atom, nothing for a negated && chain, restoration afterwards). Exploration.",
+            "Three listed finding shapes (&& on one variable, negated && chain, elsif !nil? after is_a?) are avoided by 3/4 of the generator and kept alive by the rest; dependent probes inside such a branch are not examined further.",
+            "DESIGN.md §4 C10"),
 }
 
 PENDING_REASON = "check not built yet in this round (planned in DESIGN.md §3.11); no claim is made"
